@@ -25,7 +25,8 @@ from regex_ref import TYPES, reference
 TYPE_WORDS = ["emacs", "grep", "posix-basic", "posix-extended", "ed", "sed", "bogus", "posix"]
 PATTERNS = ["r/ab", ".*b", "r/a", "ab", "r/\\(a\\|ab\\)", "r/\\(ab\\|a\\)", "r/(a|ab)", "r/(ab|a)", "r/a+", "r/a\\+", "r/ab?", "r/A.", ".*/[xa]b", "r/\\(a", "r/(a", "r/a\\|ab", "R/.*",
             ".*/\\(.\\)\\1", ".*/(.)\\1", "\\./r/ab"]
-SUBJECTS = ["r/a", "r/ab", "r/AB", "r/aab", "r/a+", "r/ab?", "r/(a|ab)", "r/xab", "r/abx", "r/a|ab", "r/(ab|a)", "r/b", "r/aa", "r/(a)1", "./r/ab"]
+SUBJECTS = ["r/a", "r/ab", "r/AB", "r/aab", "r/a+", "r/ab?", "r/(a|ab)", "r/xab", "r/abx", "r/a|ab", "r/(ab|a)", "r/b", "r/aa", "r/(a)1", "./r/ab",
+            "r/\udcffab"]       # a path with a byte that is not UTF-8 (0xFF, carried as a lone surrogate): matched as the text -print shows for it
 RX = ["-regex", "-iregex"]
 
 # sentence templates: T = type slot, P = pattern slot, R = -regex / -iregex slot; everything else is literal
@@ -110,12 +111,15 @@ def natives(state):
         r, text, at = deref(a[0]), text_of(m, a[1]), a[2]
         if not isinstance(at, int):
             raise Unsupported("symbolic offset")
-        n = om.onig_match(r.fields[0], text, at, r.fields[1])
-        return Some(n - at) if n is not None else NONE()
+        n = om.onig_match(r.fields[0], text[at:] if at else text, 0, r.fields[1])       # (offsets of the onig crate are byte offsets; `at` is 0 wherever findutils could call this)
+        if at:
+            raise Unsupported("onig match at a non-zero offset")
+        return Some(len(text[:n].encode("utf-8", errors="surrogateescape"))) if n is not None else NONE()
 
     nat.update({
         "Syntax::emacs": syntax("emacs"), "Syntax::grep": syntax("grep"), "Syntax::posix_basic": syntax("posix_basic"), "Syntax::posix_extended": syntax("posix_extended"),
-        "Regex::with_options": with_options, "Regex::new": new, "Regex::is_match": is_match, "Regex::find": find,
+        "Regex::with_options": with_options, "Regex::new": new, "Regex::is_match": is_match, "Regex::find": find, "Regex::match_with_options": match_with_options,
+        "OsStr::len": lambda m, a: len(text_of(m, a[0]).encode("utf-8", errors="surrogateescape")), "Path::as_os_str": lambda m, a: a[0],
         "<RegexOptions as BitOr>::bitor": bitor,
         "<impl Into<PathBuf> as Into>::into": lambda m, a: a[0],
         "<Printer as Matcher>::matches": lambda m, a: (state["printed"].append(1), True)[1],
